@@ -186,7 +186,41 @@ async fn run_case(sock: PathBuf, ops: Vec<String>) -> Vec<String> {
                                     &jsonwebtoken::EncodingKey::from_secret(SECRET.as_bytes())).expect("jwt");
                                 json!({"authorizationRequest": {"authToken": token}}).to_string()
                             }
-                            _ => json!({"authorizationRequest": {"authToken": "not.a.token"}}).to_string(),
+                            _ => {
+                                // badauth <s> [expired|forged|noalg j<claims>]: tokens the server must refuse
+                                let token = match t.get(2).copied() {
+                                    Some("expired") => {
+                                        let mut claims: Value = json_of(t[3]);
+                                        claims["exp"] = json!(1_000_000_000u64);
+                                        jsonwebtoken::encode(&jsonwebtoken::Header::new(jsonwebtoken::Algorithm::HS256), &claims,
+                                            &jsonwebtoken::EncodingKey::from_secret(SECRET.as_bytes())).expect("jwt")
+                                    }
+                                    Some("forged") => {
+                                        let claims: Value = json_of(t[3]);
+                                        jsonwebtoken::encode(&jsonwebtoken::Header::new(jsonwebtoken::Algorithm::HS256), &claims,
+                                            &jsonwebtoken::EncodingKey::from_secret(b"somebody else's secret")).expect("jwt")
+                                    }
+                                    Some("noalg") => {
+                                        // an unsigned token: header {"alg":"none"}, the claims, an empty signature
+                                        let claims: Value = json_of(t[3]);
+                                        let b64 = |b: &[u8]| {
+                                            const T: &[u8; 64] = b"ABCDEFGHIJKLMNOPQRSTUVWXYZabcdefghijklmnopqrstuvwxyz0123456789-_";
+                                            let mut o = String::new();
+                                            for ch in b.chunks(3) {
+                                                let n = (ch[0] as u32) << 16 | (*ch.get(1).unwrap_or(&0) as u32) << 8 | *ch.get(2).unwrap_or(&0) as u32;
+                                                o.push(T[(n >> 18) as usize & 63] as char);
+                                                o.push(T[(n >> 12) as usize & 63] as char);
+                                                if ch.len() > 1 { o.push(T[(n >> 6) as usize & 63] as char); }
+                                                if ch.len() > 2 { o.push(T[n as usize & 63] as char); }
+                                            }
+                                            o
+                                        };
+                                        format!("{}.{}.", b64(br#"{"alg":"none","typ":"JWT"}"#), b64(claims.to_string().as_bytes()))
+                                    }
+                                    _ => "not.a.token".to_owned(),
+                                };
+                                json!({"authorizationRequest": {"authToken": token}}).to_string()
+                            }
                         };
                         for (n, cid) in &cids {
                             text = text.replace(&format!("@CID{n}@"), cid);
